@@ -127,6 +127,137 @@ func (f Favour) Pick(step int, en []Enabled, _ int, _ *struct{}) int {
 }
 func (f Favour) Name() string { return fmt.Sprintf("favour(%d,%d)", f.Fav, f.K) }
 
+// Teams runs the actors in small teams: one, two or three actors are chosen at random and take turns, one step each,
+// for a burst of 4..27 steps; then a new team is chosen. A team of one lets an actor complete a whole multi-step
+// sequence undisturbed; a team of two alternates two actors step by step, which interleaves two such sequences
+// crosswise (a, b, a, b) — the shape of a torn update — with a probability uniform choice gives only to short ones.
+type Teams struct {
+	R      *rand.Rand
+	team   []int
+	left   int
+	turn   int
+	random bool // this burst: a random member of the team at each step (nested shapes a, b, b, a) instead of strict turns
+}
+
+func (t *Teams) Pick(_ int, en []Enabled, _ int, _ *struct{}) int {
+	for attempt := 0; attempt < 2; attempt++ {
+		if t.left > 0 && t.random {
+			var idx []int
+			for i, e := range en {
+				for _, who := range t.team {
+					if e.Who == who {
+						idx = append(idx, i)
+					}
+				}
+			}
+			if len(idx) > 0 {
+				t.left--
+				return idx[t.R.IntN(len(idx))]
+			}
+		}
+		if t.left > 0 && !t.random {
+			for k := 0; k < len(t.team); k++ {
+				who := t.team[(t.turn+k)%len(t.team)]
+				for i, e := range en {
+					if e.Who == who {
+						t.turn = (t.turn + k + 1) % len(t.team)
+						t.left--
+						return i
+					}
+				}
+			}
+		}
+		// choose a new team among the enabled actors
+		n := 1 + t.R.IntN(3)
+		if n > len(en) {
+			n = len(en)
+		}
+		perm := t.R.Perm(len(en))
+		t.team = t.team[:0]
+		for _, i := range perm[:n] {
+			t.team = append(t.team, en[i].Who)
+		}
+		t.left, t.turn, t.random = 4+t.R.IntN(24), 0, t.R.IntN(2) == 0
+	}
+	return t.R.IntN(len(en))
+}
+func (t *Teams) Name() string { return "teams" }
+
+// Align holds every actor that arrives at Site until N of them are parked there (or nothing else can run), and only
+// then lets them go, under the Inner strategy: a barrier the simulator places, so that N workers have, say, all found a
+// nonce before the first of them publishes it. Left to chance, the first finder's stop flag sends the others home
+// before they get there, and everything that needs several simultaneous finders is reached only when the workers
+// happen to advance in lockstep.
+type Align struct {
+	Inner    Strategy
+	Site     string
+	N        int
+	Leader   *rand.Rand // not nil: on release one of the held actors (at random) runs alone for a few steps, then only the others
+	released bool
+	held     []int
+	leader   int
+	solo     int
+	others   int
+}
+
+func (a *Align) Pick(step int, en []Enabled, last int, x *struct{}) int {
+	if !a.released {
+		var free []int
+		held := 0
+		for i, e := range en {
+			if e.Site == a.Site {
+				held++
+			} else {
+				free = append(free, i)
+			}
+		}
+		if held >= a.N || len(free) == 0 {
+			a.released = true
+			if a.Leader != nil && held >= 2 {
+				for _, e := range en {
+					if e.Site == a.Site {
+						a.held = append(a.held, e.Who)
+					}
+				}
+				a.leader = a.held[a.Leader.IntN(len(a.held))]
+				a.solo, a.others = 3+a.Leader.IntN(8), 6+a.Leader.IntN(30)
+			}
+		} else {
+			sub := make([]Enabled, len(free))
+			for j, i := range free {
+				sub[j] = en[i]
+			}
+			return free[a.Inner.Pick(step, sub, last, x)]
+		}
+	}
+	if a.solo > 0 { // the leader alone
+		for i, e := range en {
+			if e.Who == a.leader {
+				a.solo--
+				return i
+			}
+		}
+		a.solo = 0
+	}
+	if a.others > 0 { // then the other actors that were held, in random order, the leader staying where it is
+		var idx []int
+		for i, e := range en {
+			for _, who := range a.held {
+				if e.Who == who && who != a.leader {
+					idx = append(idx, i)
+				}
+			}
+		}
+		if len(idx) > 0 {
+			a.others--
+			return idx[a.Leader.IntN(len(idx))]
+		}
+		a.others = 0
+	}
+	return a.Inner.Pick(step, en, last, x)
+}
+func (a *Align) Name() string { return fmt.Sprintf("align(%s,%d)+%s", a.Site, a.N, a.Inner.Name()) }
+
 // SplitMix64 is the seed-derivation function used everywhere.
 func SplitMix64(x uint64) uint64 {
 	x += 0x9e3779b97f4a7c15
